@@ -35,9 +35,9 @@ LEVEL = "exploration"
 RULE = ("cases are (open mode, 0..5 members with name/style/binary data/metadata, history of 1..25 "
         "read/read(n)/readline/readline(n)/readlines/seek/tell/close operations interleaved over all "
         "members); after every step the returned value and the tell() of *every* member are compared "
-        "with an io.BytesIO shadow per member. Enumerated: every history of <=3 (quick) / <=4 "
-        "(thorough) operations from a 14-operation alphabet x 2 members, over 8 first-member "
-        "contents, both open modes; generated: Hypothesis archives x histories; thorough also builds "
+        "with an io.BytesIO shadow per member. Enumerated: every history of <=3 operations (thorough: "
+        "<=4 for four of the contents) from a 14-operation alphabet x 2 members, over 8 first-member "
+        "contents, both open modes (filename mode one operation shorter); generated: Hypothesis archives x histories; thorough also builds "
         "the archive with binutils ar. Non-trivial = >=2 members and (a readline/readlines call that "
         "has to return the unterminated last line of its member, or a read-family call that starts "
         "at a position beyond the member's end); distinct = distinct canonical JSON of the case")
@@ -52,8 +52,9 @@ ASSUMPTIONS = [
 EXHAUSTIVE = {
     "quick": "all histories of 1..3 operations from a 14-operation alphabet on each of 2 members, x 8 "
              "contents of the first member (fileobj mode); histories of 1..2 operations in filename mode",
-    "thorough": "all histories of 1..4 operations from a 14-operation alphabet on each of 2 members, x 8 "
-                "contents of the first member (fileobj mode); histories of 1..3 operations in filename mode",
+    "thorough": "all histories of 1..3 operations from a 14-operation alphabet on each of 2 members, x 8 "
+                "contents of the first member, in both open modes; histories of 4 operations for the first-member "
+                "contents 'a', 'ab', 'a\\n', 'a\\nb' (odd/even size x with/without final newline) in fileobj mode",
 }
 BUDGET = {"quick": 200, "thorough": 1500}
 
@@ -306,6 +307,10 @@ def check(case):
                     labels.add("ar-binary:not-applicable")
                 elif built == raw:
                     labels.add("ar-binary:identical-to-harness-writer")
+                elif built[8:24] == b"/".ljust(16):
+                    # bfd took some member's bytes for an object file and ar prepended a symbol
+                    # table member "/": no longer an archive of short-named members only
+                    labels.add("ar-binary:added-a-symbol-table")
                 else:
                     # never an alarm: the second writer only vouches for the first
                     labels.add("ar-binary:differs-from-harness-writer")
@@ -345,17 +350,26 @@ def _enum_member(name, data):
     return {"name": name, "style": "gnu", "data": data, "mtime": 0, "uid": 0, "gid": 0, "mode": 0o100644}
 
 
-def enum_cases(max_fileobj, max_filename):
+ENUM_DEEP = ["a", "ab", "a\n", "a\nb"]
+
+
+def enum_cases(plan):
+    """plan: list of (open mode, first-member contents, history lengths)."""
     symbols = [[o[0], i] + o[1:] for i in (0, 1) for o in ENUM_OPS]
 
     def gen():
-        for mode, maxlen in (("fileobj", max_fileobj), ("filename", max_filename)):
-            for first in ENUM_FIRST:
+        for mode, firsts, lengths in plan:
+            for first in firsts:
                 members = [_enum_member("a", first), _enum_member("b", "x\ny")]
-                for n in range(1, maxlen + 1):
+                for n in lengths:
                     for seq in itertools.product(symbols, repeat=n):
                         yield {"open": mode, "members": members, "ops": [list(o) for o in seq]}
     return gen
+
+
+ENUM_QUICK = [("fileobj", ENUM_FIRST, (1, 2, 3)), ("filename", ENUM_FIRST, (1, 2))]
+ENUM_THOROUGH = [("fileobj", ENUM_FIRST, (1, 2, 3)), ("filename", ENUM_FIRST, (1, 2, 3)),
+                 ("fileobj", ENUM_DEEP, (4,))]
 
 
 # ------------------------------------------------------------------------------------------
@@ -423,8 +437,8 @@ def sources(tier):
         return [Custom("externals", externals_phase, shards=1),
                 Hyp("ar-binary", case_st("ar"), 60, shards=1),
                 Hyp("archives-x-histories", case_st(), 1200, shards=8),
-                Enum("histories<=3", enum_cases(3, 2), EXHAUSTIVE["quick"])]
+                Enum("histories<=3", enum_cases(ENUM_QUICK), EXHAUSTIVE["quick"])]
     return [Custom("externals", externals_phase, shards=1),
             Hyp("ar-binary", case_st("ar"), 150, shards=4),
-            Hyp("archives-x-histories", case_st(), 8000, shards=16),
-            Enum("histories<=4", enum_cases(4, 3), EXHAUSTIVE["thorough"])]
+            Hyp("archives-x-histories", case_st(), 6000, shards=16),
+            Enum("histories<=4", enum_cases(ENUM_THOROUGH), EXHAUSTIVE["thorough"])]
